@@ -28,7 +28,7 @@ L_KIND = z3.Function('lock_kind', LZ, z3.IntSort()); L_EXCL = z3.Function('lock_
 
 def build(reg):
     dyn.install(reg)
-    reg.tracked_names = {'useSharedPackage', 'OpenLocked', 'rename', 'dump', 'load', 'rmtree', 'unlink', 'remove', 'move', 'copytree', 'hashDirectoryWithSize', '__addPackage', '_LocalShare__addPackage'}
+    reg.tracked_names = {'useSharedPackage', 'OpenLocked', 'rename', 'dump', 'load', 'loadRepoMeta', 'rmtree', 'unlink', 'remove', 'move', 'copytree', 'hashDirectoryWithSize', '__addPackage', '_LocalShare__addPackage'}
     reg.trusted += ['flock semantics are the OS\'s (lockFile/unlockFile are one fcntl.flock call each: watched, not proved); callers of OpenLocked rely on OpenLocked.__enter__/__exit__ only through their contracts proved here',
                     'repo.json / pkg.json hold complete JSON whenever they are read under their lock: every writer rewrites them completely under the exclusive lock and OpenLocked.__exit__ flushes before unlocking (proved); a crash in the middle of such a rewrite is outside this property',
                     'os.rename of a directory is atomic and fails with ENOTEMPTY/EEXIST if the destination exists and is not empty',
@@ -50,6 +50,10 @@ def build(reg):
         ex = a[-1]
         exz = ex.z if ex.t == BOOL else z3.Bool(fresh_name('excl'))
         st.assume(z3.And(L_KIND(l) == k, L_EXCL(l) == exz))
+        mode = a[-2]
+        # opening truncates BEFORE the lock is taken: a meta file that may exist is never opened with 'w' (create with 'x', update with 'r+')
+        eng.oblige(st, 'open@%s:meta-file-not-opened-in-a-truncating-mode' % node.lineno,
+                   z3.Or(*[mode.z == z3.StringVal(x) for x in ('r', 'r+', 'x', 'x+')]) if mode.t == STR else z3.BoolVal(False), 'typestate', node)
         v = V(LOCK, l); v.src = ('lock', k, exz, ast.unparse(node.args[1]) if len(node.args) > 1 else '')
         return [(st, v)]
     def lock_enter(eng, st, args, kw, node):
@@ -111,7 +115,7 @@ def build(reg):
         elif 'addPackage' in u or u.endswith('update'):
             eng.oblige(st, 'dump@%s:repository-accounting-only-under-its-exclusive-lock' % ln, g(st, 'REPO') == 2, 'typestate', node)
         return [eng.raise_(st.fork(), 'OSError', 'write fails at %s' % eng.loc(node)), (st, mk_none())]
-    @reg.model('Dyn.load')
+    @reg.model('Dyn.load', 'Dyn.loadRepoMeta')
     def m_load(eng, st, args, kw, node):
         u = getattr(reg.current_unit, 'qual', '')
         if 'addPackage' in u or u.endswith('update'):
